@@ -128,6 +128,48 @@ print('not reproduced'); sys.exit(0)
 '''
 
 
+PLUTO_REPLAY = r'''
+from math import sin, cos, sqrt, atan2, asin, degrees, acos
+from pymeeus.Epoch import Epoch
+from pymeeus.Pluto import Pluto
+from pymeeus.Sun import Sun
+bad = None
+calls = []
+orig = Pluto.geometric_heliocentric_position
+def wrap(ep, *a, **k):
+    r_ = orig(ep, *a, **k); calls.append((ep.jde(), r_)); return r_
+sine, cose = 0.397777156, 0.917482062
+def vec(p):
+    l, b, r = p[0].rad(), p[1].rad(), p[2]
+    return (r * cos(l) * cos(b), r * (sin(l) * cos(b) * cose - sin(b) * sine), r * (sin(l) * cos(b) * sine + sin(b) * cose))
+for jd in (2448908.5, 2451545.0, 2415020.5, 2460000.5, 2480000.5):
+    e = Epoch(jd); before = e.jde(); del calls[:]
+    Pluto.geometric_heliocentric_position = staticmethod(wrap)
+    try:
+        ra, dec = Pluto.geocentric_position(e)
+    finally:
+        Pluto.geometric_heliocentric_position = orig
+    if e.jde() != before:
+        bad = 'the caller\'s Epoch moved'; break
+    xs, ys, zs = Sun.rectangular_coordinates_j2000(e)
+    if len(calls) != 2 or calls[0][0] != jd:
+        bad = 'theory called at %r' % [c[0] for c in calls]; break
+    v1 = vec(calls[0][1]); d1 = sqrt((v1[0] + xs) ** 2 + (v1[1] + ys) ** 2 + (v1[2] + zs) ** 2)
+    tau = jd - calls[1][0]
+    if not (0.99 * 0.0057755183 * d1 <= tau <= 1.01 * 0.0057755183 * d1):
+        bad = 'JDE %r: re-evaluated %r days earlier, light-time %r' % (jd, tau, 0.0057755183 * d1); break
+    v2 = vec(orig(Epoch(jd - 0.0057755183 * d1)))
+    xi, eta, zeta = v2[0] + xs, v2[1] + ys, v2[2] + zs
+    a2, d2 = atan2(eta, xi), asin(zeta / sqrt(xi * xi + eta * eta + zeta * zeta))
+    c = sin(dec.rad()) * sin(d2) + cos(dec.rad()) * cos(d2) * cos(ra.rad() - a2)
+    if degrees(acos(max(-1.0, min(1.0, c)))) > 1e-4:
+        bad = 'JDE %r: returned direction %r degrees from Earth(t) -> Pluto(t - tau)' % (jd, degrees(acos(max(-1.0, min(1.0, c))))); break
+if bad:
+    print('REPRODUCED %s: Pluto.geocentric_position: %s' % (SITE, bad)); sys.exit(1)
+print('not reproduced'); sys.exit(0)
+'''
+
+
 class PassAngle(object):
     def __init__(self, v=0.0, *a, **k):
         self.v = v.v if isinstance(v, PassAngle) else v
@@ -478,21 +520,111 @@ def task_minor(branch):
     return t
 
 
+def task_pluto(_):
+    """Pluto.geocentric_position up to the second `zeta = z + zs`: same wiring obligations, theory and Sun coordinates uninterpreted"""
+    t = harness.Task('Pluto.geocentric_position')
+    mod = loader.mod('Pluto')
+    E = loader.mod('Epoch')
+    Epoch = E.Epoch
+    try:
+        head, _src = slicer.head_until('Pluto', 'Pluto.geocentric_position', 'zeta = z + zs', 'epoch', '(xi, eta, zeta, tau, xs, ys, zs)')
+    except core.EngineError as ex:
+        t.ob('Pluto.geocentric_position: second pass found', 'unknown', 0, str(ex))
+        return t
+    j = Num.real_var('jde')
+    calls = []
+    saved = (Epoch.set, mod.Pluto.geometric_heliocentric_position, mod.Sun.rectangular_coordinates_j2000, Epoch.year)
+
+    def set_summary(self, *args, **kw):
+        if len(args) == 1 and not kw and core.s_isinstance(args[0], (int, float)):
+            self._jde = args[0]
+            return
+        return saved[0](self, *args, **kw)
+
+    def theory(epoch, *a, **k):
+        n = len(calls)
+        l, b, r = Num.real_var('l%d' % n), Num.real_var('b%d' % n), Num.real_var('r%d' % n)
+        core.CUR.assume(z3.And(r.e > 29, r.e < 50))
+        calls.append(('pluto', epoch._jde, l, b, r))
+        return PassAngle(l), PassAngle(b), r
+
+    def sunxyz(ep):
+        xs, ys, zs = Num.real_var('xs'), Num.real_var('ys'), Num.real_var('zs')
+        calls.append(('sun', ep._jde, xs, ys, zs))
+        return xs, ys, zs
+    q = Epoch()
+    S, C = core.MATH['sin'], core.MATH['cos']
+    sine, cose = 0.397777156, 0.917482062
+
+    def vec(c):
+        _, _, l, b, r = c
+        lr, br = l * Num.const(RAD), b * Num.const(RAD)
+        return (r * C(lr) * C(br), r * (S(lr) * C(br) * cose - S(br) * sine), r * (S(lr) * C(br) * sine + S(br) * cose))
+
+    def run():
+        del calls[:]
+        q._jde = j
+        out = head(q)
+        ps = [c for c in calls if c[0] == 'pluto']
+        sp = (vec(ps[0]), vec(ps[-1])) if ps else None
+        return out, list(calls), sp, q._jde
+    Epoch.set = set_summary
+    mod.Pluto.geometric_heliocentric_position = staticmethod(theory)
+    mod.Sun.rectangular_coordinates_j2000 = staticmethod(sunxyz)
+    Epoch.year = lambda self: 2000.0           # the 1885-2099 guard is not the subject here
+    try:
+        ctx, paths = core.explore(run, [j.e >= 2409543, j.e <= 2488070], trig='box', check_div0=False, timeout_ms=20000, max_paths=20, max_seconds=300)
+    finally:
+        (Epoch.set, mod.Pluto.geometric_heliocentric_position, mod.Sun.rectangular_coordinates_j2000, Epoch.year) = saved
+    t.absorb_ctx(ctx, paths)
+    bd = 'Pluto: every epoch 1885..2099; position theory and Sun coordinates uninterpreted; sin/cos boxed'
+    inp = lambda mo: {'kind': 'pluto'}
+    t.reach += 1
+    if len(paths) != 1 or paths[0].kind != 'ok':
+        t.ob('Pluto.geocentric_position: one path', 'unknown', 0, bd)
+        t.notes.append('Pluto: %r' % [(p.kind, repr(p.exc)) for p in paths][:3])
+        return t
+    p = paths[0]
+    out, cl, sp, jafter = p.val
+    xi, eta, zeta, tau, xs, ys, zs = [core.lift(v).re() for v in out]
+    ps = [c for c in cl if c[0] == 'pluto']
+    suns = [c for c in cl if c[0] == 'sun']
+    q_ = dict(timeout_ms=60000, retry=False)
+    if len(ps) != 2 or len(suns) != 1:
+        t.ob('Pluto: the theory is evaluated twice and the Sun once', 'sat', 0, bd)
+        t.cand('C09.pluto', inp(None), 'calls %r' % [c[0] for c in cl])
+        return t
+    je = j.e
+    t.decide(ctx, p, 'Pluto: Sun coordinates and first position at the caller\'s epoch', z3.Or(core.lift(suns[0][1]).re() != je, core.lift(ps[0][1]).re() != je),
+             'C09.pluto', inp, 'epochs', bd, **q_)
+    v1, v2 = sp
+    d2 = sum(((core.lift(a).re() + b) * (core.lift(a).re() + b) for a, b in zip(v1, (xs, ys, zs))), z3.RealVal(0))
+    tt = je - core.lift(ps[1][1]).re()
+    k = z3.RealVal('0.0057755183')
+    t.decide(ctx, p, 'Pluto: second position at epoch - 0.0057755183 * Delta (1 %), Delta = |Pluto(t) + Sun(t)|',
+             z3.Or(tt < 0, tt * tt < z3.RealVal('0.9801') * k * k * d2, tt * tt > z3.RealVal('1.0201') * k * k * d2), 'C09.pluto', inp, 'light-time', bd, **q_)
+    t.decide(ctx, p, 'Pluto: final vector = Pluto(t - tau) + Sun(t), component by component',
+             z3.Or(*[a != core.lift(b).re() + c for a, b, c in zip((xi, eta, zeta), v2, (xs, ys, zs))]), 'C09.pluto', inp, 'final vector', bd, **q_)
+    t.decide(ctx, p, 'Pluto: the caller\'s Epoch is not shifted', core.lift(jafter).re() != je, 'C09.pluto', inp, 'caller epoch', bd, **q_)
+    t.reach += 4
+    return t
+
+
 def dispatch(job):
     k, a = job
-    return {'wiring': task_planet, 'sun': task_sun_epoch, 'minor': task_minor}[k](a)
+    return {'wiring': task_planet, 'sun': task_sun_epoch, 'minor': task_minor, 'pluto': task_pluto}[k](a)
 
 
 def main(tier):
     loader.install()
     chk = harness.Check(PID, tier)
-    chk.replays = {'C09.wiring': REPLAY, 'C09.elong': REPLAY, 'C09.minor': MINOR_REPLAY}
-    chk.functions = ['%s.geocentric_position (head, up to the second difference vector; whole method for the call epochs)' % pl for pl in PLANETS] + ['Minor.geocentric_position (up to the second zeta)']
-    chk.run(dispatch, [('wiring', pl) for pl in PLANETS] + [('sun', pl) for pl in PLANETS] + [('minor', b) for b in ('elliptic', 'near-parabolic', 'parabolic')], 'light-time wiring of 7 planets; epoch of the Sun in the elongation')
+    chk.replays = {'C09.wiring': REPLAY, 'C09.elong': REPLAY, 'C09.minor': MINOR_REPLAY, 'C09.pluto': PLUTO_REPLAY}
+    chk.functions = ['%s.geocentric_position (head, up to the second difference vector; whole method for the call epochs)' % pl for pl in PLANETS] + ['Minor.geocentric_position (up to the second zeta)', 'Pluto.geocentric_position (up to the second zeta)']
+    chk.run(dispatch, [('wiring', pl) for pl in PLANETS] + [('sun', pl) for pl in PLANETS] + [('minor', b) for b in ('elliptic', 'near-parabolic', 'parabolic')] + [('pluto', 0)], 'light-time wiring of 7 planets; epoch of the Sun in the elongation')
     chk.bounds = {'epoch': 'every JDE of years -2000..4000 (symbolic real)', 'planets': PLANETS}
     chk.stubs = ['<Planet>.geometric_heliocentric_position and Earth.geometric_heliocentric_position -> uninterpreted theory: fresh symbolic (l, b, r) per call, epoch recorded',
                  'sin/cos -> boxes in [-1, 1] keyed by their argument; sqrt -> fresh non-negative real with its square; Epoch(number) -> stores the JDE (C02)']
     chk.outside = ['everything after the difference vector: aberration, FK5, nutation, conversion to equatorial coordinates (C05 decides ecliptical2equatorial itself), elongation value and its limits for Mercury / Venus',
-                   'Pluto; minor bodies on other orbits than the three concrete ones; later steps of the parabolic Newton iteration', 'every clause on VALUES of the series']
+                   'Pluto\'s 1885-2099 guard; minor bodies on other orbits than the three concrete ones; later steps of the parabolic Newton iteration', 'every clause on VALUES of the series']
     chk.assumptions = ['real arithmetic; box abstraction: equal arguments give the same box, so the component identities are polynomial identities in the boxes']
     return chk.finish()
